@@ -2,9 +2,9 @@ package single
 
 import (
 	"context"
-	"encoding/hex"
 	"errors"
 	"fmt"
+	"strconv"
 	"sync"
 
 	ds "github.com/ipfs/go-datastore"
@@ -26,10 +26,24 @@ func newPrefixKV(kvStore ds.Batching, prefix string) ds.Batching {
 
 // BatchQueue implements a persistent queue for transaction batches
 type BatchQueue struct {
-	queue        []coresequencer.Batch
+	queue []coresequencer.Batch
+	// keys holds, for each batch in queue, the name of its entry in the WAL.
+	// Entries are named by a sequence number, not by their content: two batches
+	// with equal contents are two entries, and the order of the names is the
+	// order in which the batches were accepted, which Load relies on.
+	keys         []string
+	nextSeq      uint64
 	maxQueueSize int // maximum number of batches allowed in queue (0 = unlimited)
 	mu           sync.Mutex
 	db           ds.Batching
+}
+
+// seqKeyLen is the width of a sequence-number key: fixed, so that the
+// lexicographic order of the keys is the numeric order of the sequence numbers.
+const seqKeyLen = 16
+
+func seqKey(seq uint64) string {
+	return fmt.Sprintf("%0*x", seqKeyLen, seq)
 }
 
 // NewBatchQueue creates a new BatchQueue with the specified maximum size.
@@ -53,11 +67,7 @@ func (bq *BatchQueue) AddBatch(ctx context.Context, batch coresequencer.Batch) e
 		return ErrQueueFull
 	}
 
-	hash, err := batch.Hash()
-	if err != nil {
-		return err
-	}
-	key := hex.EncodeToString(hash)
+	key := seqKey(bq.nextSeq)
 
 	pbBatch := &pb.Batch{
 		Txs: batch.Transactions,
@@ -75,6 +85,8 @@ func (bq *BatchQueue) AddBatch(ctx context.Context, batch coresequencer.Batch) e
 
 	// Then add to in-memory queue
 	bq.queue = append(bq.queue, batch)
+	bq.keys = append(bq.keys, key)
+	bq.nextSeq++
 
 	return nil
 }
@@ -89,16 +101,12 @@ func (bq *BatchQueue) Next(ctx context.Context) (*coresequencer.Batch, error) {
 	}
 
 	batch := bq.queue[0]
+	key := bq.keys[0]
 	bq.queue = bq.queue[1:]
-
-	hash, err := batch.Hash()
-	if err != nil {
-		return &coresequencer.Batch{Transactions: nil}, err
-	}
-	key := hex.EncodeToString(hash)
+	bq.keys = bq.keys[1:]
 
 	// Delete the batch from the WAL since it's been processed
-	err = bq.db.Delete(ctx, ds.NewKey(key))
+	err := bq.db.Delete(ctx, ds.NewKey(key))
 	if err != nil {
 		// Log the error but continue
 		fmt.Printf("Error deleting processed batch: %v\n", err)
@@ -114,8 +122,10 @@ func (bq *BatchQueue) Load(ctx context.Context) error {
 
 	// Clear the current queue
 	bq.queue = make([]coresequencer.Batch, 0)
+	bq.keys = make([]string, 0)
 
-	q := query.Query{}
+	// in key order, i.e. in the order in which the batches were accepted
+	q := query.Query{Orders: []query.Order{query.OrderByKey{}}}
 	results, err := bq.db.Query(ctx, q)
 	if err != nil {
 		return fmt.Errorf("error querying datastore: %w", err)
@@ -134,7 +144,16 @@ func (bq *BatchQueue) Load(ctx context.Context) error {
 			fmt.Printf("Error decoding batch for key '%s': %v. Skipping entry.\n", result.Key, err)
 			continue
 		}
+		name := ds.NewKey(result.Key).Name()
 		bq.queue = append(bq.queue, coresequencer.Batch{Transactions: pbBatch.Txs})
+		bq.keys = append(bq.keys, name)
+		// continue numbering after the highest sequence number in use (entries
+		// written by older versions are named differently and are skipped here)
+		if len(name) == seqKeyLen {
+			if seq, err := strconv.ParseUint(name, 16, 64); err == nil && seq >= bq.nextSeq {
+				bq.nextSeq = seq + 1
+			}
+		}
 	}
 
 	return nil
